@@ -509,6 +509,23 @@ func (b *c06Bat) tableStages(ti int) {
 			_ = t.SetCellFormat(p[0], p[1], cf)
 		}
 	})
+	on(st, "SetCellFormat(partial configurations)", true, func(d *document.Document, t *document.Table) {
+		// one field group at a time: each group takes its own path through the setter
+		for _, cf := range []*document.CellFormat{
+			{TextFormat: tf},
+			{HorizontalAlign: document.CellAlignRight},
+			{VerticalAlign: document.CellVAlignBottom},
+			{TextDirection: document.TextDirectionTB},
+			{BackgroundColor: "ABCDEF"},
+			{BorderStyle: "single"},
+			{Padding: 2},
+			{},
+		} {
+			for _, p := range cells(t) {
+				_ = t.SetCellFormat(p[0], p[1], cf)
+			}
+		}
+	})
 	on(st, "SetCellFormattedText", true, func(d *document.Document, t *document.Table) {
 		for _, p := range cells(t) {
 			_ = t.SetCellFormattedText(p[0], p[1], "ft", tf)
